@@ -299,10 +299,43 @@ def rules(rep, m):
                   "earlier calls on the same thread used", floor=2)
     nmemo = 0
     for f in sorted(api, key=lambda f_: f_.name):
-        statics = {g.node["id"]: g.name for g in m.globals.values() if g.local_to == f.key and g.node is not None}
-        if not statics:
-            continue
+        fcx = FuncCtx(m, f)
+        local_statics = {g.node["id"]: g.name for g in m.globals.values() if g.local_to == f.key and g.node is not None}
+
+        def cell(n_):
+            """name of the static-storage cell an lvalue / rvalue denotes: a static local of this function, or a member of
+            a file-scope (thread-local) object of the random module; None otherwise"""
+            n0 = strip(n_, casts=True)
+            path = []
+            while n0["kind"] == "MemberExpr" and not n0.get("isArrow") and kids(n0):
+                path.append(n0.get("name") or "?")
+                n0 = strip(kids(n0)[0], casts=True)
+            if n0["kind"] != "DeclRefExpr":
+                return None
+            if n0["ref"].get("id") in local_statics and not path:
+                return local_statics[n0["ref"]["id"]]
+            gk = m.global_key(f.unit, f, n0["ref"])
+            if gk is not None and gk in S and path and m.globals[gk].local_to is None:
+                return "%s.%s" % (m.globals[gk].name, ".".join(reversed(path)))
+            return None
         params = {p_["name"] for p_ in f.params}
+
+        def is_param(n_):
+            c_ = fcx.canon(n_)
+            return c_ in params
+
+        def cells_written(node):
+            out = []
+            for y in walk(node):
+                if y["kind"] in ("BinaryOperator", "CompoundAssignOperator") and y.get("opcode", "").endswith("=") and \
+                        y.get("opcode") not in ("==", "!=", "<=", ">="):
+                    c_ = cell(kids(y)[0])
+                    if c_:
+                        out.append(c_)
+            return out
+        if not local_statics and not any(cell(kids(y)[0]) for y in walk(f.body)
+                                         if y["kind"] in ("BinaryOperator", "CompoundAssignOperator") and y.get("opcode") == "="):
+            continue
         for x in walk(f.body):
             if x["kind"] != "IfStmt":
                 continue
@@ -311,22 +344,24 @@ def rules(rep, m):
             while c0["kind"] == "UnaryOperator" and c0.get("opcode") == "!":
                 c0, neg = strip(kids(c0)[0], casts=True), not neg
             exact = c0["kind"] == "BinaryOperator" and ((c0.get("opcode") == "!=" and not neg) or (c0.get("opcode") == "==" and neg))
+            key = par = None
             if exact:
-                sides = [strip(z, casts=True) for z in kids(c0)]
-                key = [z for z in sides if z["kind"] == "DeclRefExpr" and z["ref"]["id"] in statics]
-                par = [z for z in sides if z["kind"] == "DeclRefExpr" and z["ref"]["name"] in params]
-                if len(key) != 1 or len(par) != 1:
+                sides = kids(c0)
+                keyc = [cell(z) for z in sides if cell(z)]
+                parc = [z for z in sides if is_param(z)]
+                if len(keyc) != 1 or len(parc) != 1:
                     exact = False
+                else:
+                    key = keyc[0]
             if not exact:
-                # some other test that relates a parameter to one static and guards the recomputation of other statics:
+                # some other test that relates a parameter to one static cell and guards the recomputation of other cells:
                 # a memo whose key test is not equality
-                ks = {y["ref"]["id"] for y in walk(c0) if y["kind"] == "DeclRefExpr" and y["ref"]["id"] in statics}
-                ps = {y["ref"]["name"] for y in walk(c0) if y["kind"] == "DeclRefExpr" and y["ref"]["name"] in params}
-                wr = {strip(kids(y)[0], casts=True).get("ref", {}).get("id") for y in walk(kids(x)[1])
-                      if y["kind"] in ("BinaryOperator", "CompoundAssignOperator") and y.get("opcode") == "="}
-                if len(ks) == 1 and ps and (wr & set(statics)) - ks:
+                ks = {cell(y) for y in walk(c0) if y["kind"] in ("DeclRefExpr", "MemberExpr") and cell(y)}
+                ps = [y for y in walk(c0) if y["kind"] == "DeclRefExpr" and is_param(y)]
+                wr = set(cells_written(kids(x)[1]))
+                if len(ks) == 1 and ps and wr - ks:
                     nmemo += 1
-                    kname = statics[next(iter(ks))]
+                    kname = next(iter(ks))
                     r6.instance("%s: memo keyed by %s with the key test %s" % (f.name, kname, render(kids(x)[0])[:80]))
                     rep.finding(r6, f.name, "memo:key-inexact", "%s reuses the values cached for the parameter stored in '%s' whenever "
                                 "'%s' holds - a test that is not 'the parameter equals the key': a call with a parameter that "
@@ -335,33 +370,26 @@ def rules(rep, m):
                                 % (f.name, kname, render(kids(x)[0])[:100]), where=m.rel(loc(x)))
                     r6.fail()
                 continue
-            kid_ = key[0]["ref"]["id"]
             block = kids(x)[1]
             stmts = kids(block) if block["kind"] == "CompoundStmt" else [block]
             nmemo += 1
-            # cached values: the other statics of the function written inside the block
-            def writes(node, vid):
-                return any(strip(l, casts=True).get("ref", {}).get("id") == vid for l, r_, k_, n_ in
-                           [(kids(y)[0], None, None, y) for y in walk(node)
-                            if y["kind"] in ("BinaryOperator", "CompoundAssignOperator") and y.get("opcode", "").endswith("=")
-                            and y.get("opcode") not in ("==", "!=", "<=", ">=")])
-            values = [vid for vid in statics if vid != kid_ and writes(block, vid)]
-            key_at = [i for i, s_ in enumerate(stmts) if writes(s_, kid_)]
-            r6.instance("%s: memo keyed by %s caching %s (key updated: %s)" % (f.name, statics[kid_], [statics[v_] for v_ in values], bool(key_at)))
-            rep.sample({"rule": "R-C15-6", "function": f.name, "key": statics[kid_], "values": [statics[v_] for v_ in values]})
+            values = sorted({c_ for c_ in cells_written(block) if c_ != key})
+            key_at = [i for i, s_ in enumerate(stmts) if key in cells_written(s_)]
+            r6.instance("%s: memo keyed by %s caching %s (key updated: %s)" % (f.name, key, values, bool(key_at)))
+            rep.sample({"rule": "R-C15-6", "function": f.name, "key": key, "values": values})
             bad = None
             if key_at:
                 # every value is written by a top-level statement of the block (not only under a nested condition) ...
                 for v_ in values:
-                    if not any(writes(s_, v_) and s_["kind"] != "IfStmt" for s_ in stmts):
-                        bad = "the cached value '%s' is not updated on every path that updates the key '%s'" % (statics[v_], statics[kid_])
+                    if not any(v_ in cells_written(s_) and s_["kind"] != "IfStmt" for s_ in stmts):
+                        bad = "the cached value '%s' is not updated on every path that updates the key '%s'" % (v_, key)
                 # ... and nothing leaves the function inside the block
                 for s_ in stmts:
                     for y in walk(s_):
                         if y["kind"] in ("ReturnStmt", "GotoStmt"):
                             bad = ("the function can return at line %s from inside the block that updates the key '%s': the key "
                                    "then says 'cached for this parameter' while the cached values belong to another one" %
-                                   (y.get("line"), statics[kid_]))
+                                   (y.get("line"), key))
             if bad:
                 rep.finding(r6, f.name, "memo:incoherent", "%s: %s" % (f.name, bad), where=m.rel(loc(x)))
                 r6.fail()
